@@ -62,10 +62,25 @@ theorem start_open_range_spec (r r' : Reconciler) (t : Time) (fmt : Reformat Boo
 /-- `stop`: the line with the open range has its placeholder replaced, the entry's last summary
 line gets text appended at its end, further summary lines are one splice directly after it; every
 other line is untouched. -/
+-- FALSE: with the conjunct `valueLine ≤ lastLine` the statement fails for a reconciler whose open-range
+-- entry has an EMPTY summary list (the parser never produces one: at least one line): r.record.entries =
+-- [⟨.openRange 8:00 true 0, []⟩], r.lastLine = 2, r.lines = ["2021-03-04", "    a", "    8:00 - ?"],
+-- add = ["x"]: closeOpenRange 9:00 gives ["2021-03-04", "    a x", "    8:00 - 9:00"], i.e. valueLine = 2 and
+-- lastLine = 2 + 0 - 1 = 1.  Corrected below: `valueLine ≤ lastLine + 1` (only that conjunct is weakened).
+-- theorem close_open_range_spec (r r' : Reconciler) (e : Time) (fmt : Reformat Bool) (add : List Bytes)
+--     (h : r.closeOpenRange e fmt add = some r') :
+--     ∃ (valueLine lastLine : Nat) (endValue : Bytes) (mid : List Line),
+--       valueLine ≤ lastLine ∧
+--       mid = modifyLine (modifyLine r.lines valueLine (fun t => replaceQuestionMarks t endValue)) lastLine
+--               (fun t => t ++ (match add with | [] => [] | a0 :: _ => (if a0.isEmpty then [] else [SP]) ++ a0)) ∧
+--       r'.lines = (match add with
+--                   | _ :: (x :: xs) => insertLines r.style mid (lastLine + 1) ((x :: xs).map (fun s => (s, 2)))
+--                   | _ => mid) :=
+--   KlogV.closeOpenRange_spec r r' e fmt add h
 theorem close_open_range_spec (r r' : Reconciler) (e : Time) (fmt : Reformat Bool) (add : List Bytes)
     (h : r.closeOpenRange e fmt add = some r') :
     ∃ (valueLine lastLine : Nat) (endValue : Bytes) (mid : List Line),
-      valueLine ≤ lastLine ∧
+      valueLine ≤ lastLine + 1 ∧
       mid = modifyLine (modifyLine r.lines valueLine (fun t => replaceQuestionMarks t endValue)) lastLine
               (fun t => t ++ (match add with | [] => [] | a0 :: _ => (if a0.isEmpty then [] else [SP]) ++ a0)) ∧
       r'.lines = (match add with
@@ -81,11 +96,21 @@ theorem extend_pause_spec (r r' : Reconciler) (inc : Int) (h : r.extendPause inc
 
 /-- A new record is one splice of `headline, summary lines` plus ONE separating blank line
 (before it when appended after a record, after it when placed in front of the first record). -/
-theorem new_record_spec (date : Date) (fmt : Reformat Bool) (ad : AdditionalData) (rs : List Record) (bos : List BlockOut) :
+-- FALSE: without a hypothesis on the summary lines: ad.summary = some [[], []], rs = bos = [] inserts the
+-- headline and TWO empty texts (reconcilerForNewRecord 2021-03-04 .none {summary := some [[], []]} [] [] has lines
+-- of text lengths [10, 0, 0]), so the count of empty texts is 2.  Corrected below with the minimal hypothesis
+-- that no summary line is empty (a valid record summary has no empty line: `okRecordSummaryLine`).
+-- theorem new_record_spec (date : Date) (fmt : Reformat Bool) (ad : AdditionalData) (rs : List Record) (bos : List BlockOut) :
+--     ∃ (idx : Nat) (texts : List Insertable),
+--       (reconcilerForNewRecord date fmt ad rs bos).lines = insertLines (elect {} rs (bos.map (·.lines))) (bos.map (·.lines)).flatten idx texts ∧
+--       (texts.filter (fun t => t.1.isEmpty)).length ≤ 1 ∧ texts.length = 1 + (ad.summary.getD []).length + (if rs.isEmpty then 0 else 1) :=
+--   KlogV.reconcilerForNewRecord_spec date fmt ad rs bos
+theorem new_record_spec (date : Date) (fmt : Reformat Bool) (ad : AdditionalData) (rs : List Record) (bos : List BlockOut)
+    (hs : ∀ s ∈ ad.summary.getD [], s ≠ []) :
     ∃ (idx : Nat) (texts : List Insertable),
       (reconcilerForNewRecord date fmt ad rs bos).lines = insertLines (elect {} rs (bos.map (·.lines))) (bos.map (·.lines)).flatten idx texts ∧
       (texts.filter (fun t => t.1.isEmpty)).length ≤ 1 ∧ texts.length = 1 + (ad.summary.getD []).length + (if rs.isEmpty then 0 else 1) :=
-  KlogV.reconcilerForNewRecord_spec date fmt ad rs bos
+  KlogV.reconcilerForNewRecord_spec date fmt ad rs bos hs
 
 /-- The text written is the concatenation of the lines: nothing else is produced. -/
 theorem result_is_lines (r : Reconciler) (text : Bytes) (rec : Record) (h : r.makeResult = .ok (text, rec)) :
